@@ -628,7 +628,7 @@ def _wiring(ctx, rep) -> None:
             defs = A.assignments_to(step.node, a.id)
             a = defs[0] if len(defs) == 1 else a
         ok = isinstance(a, ast.Subscript) and isinstance(a.slice, ast.Constant) and a.slice.value == 0
-        rep.ob("C01.5", "wiring:beta1-is-betas[0]", ok, step.loc(c), f"beta1 must be group[BETAS][0]; got `{ast.unparse(a)}`")
+        rep.ob("C01.5", "wiring:beta1-is-betas[0]", ok, step.loc(c), f"beta1 must be group[BETAS][0]; got `{ast.unparse(a) if a is not None else '<not passed as a separate argument>'}`")
         # state_lists / step
         a = A.arg_of(c, impl, "state_lists")
         rep.ob("C01.5", "wiring:state_lists", isinstance(a, ast.Name) and a.id == sl, step.loc(c), "the group step runs on the loop's own state lists")
